@@ -178,7 +178,7 @@ stat:
         } |
         TLocal TFunction TIdent funcbody {
             $4.SetLine($2.Pos.Line)
-            $$ = &ast.LocalAssignStmt{Names:[]string{$3.Str}, Exprs: []ast.Expr{$4}}
+            $$ = &ast.LocalAssignStmt{Names:[]string{$3.Str}, Exprs: []ast.Expr{$4}, IsFunction: true}
             $$.SetLine($1.Pos.Line)
             $$.SetLastLine($4.LastLine())
         } | 
